@@ -55,3 +55,44 @@ HARNESS(h_jm_slice) {
   if (ec == 0) compare("jmespath");
   WIT(nvis == 2 && (s64)IN_step < -1 && IN_has_start && (s64)IN_start < 0);
 }
+
+/* ---------------- C12 K12.2: index selector: i >= 0 selects element i, i < 0 selects element size+i, anything outside selects nothing ---------------- */
+INPUT(u64, IN_index)
+HARNESS(h_jp_index) {
+  HAVOC(IN_index); HAVOC(IN_size); ASSUME(IN_size <= 0x7fffffffffffffffULL);   /* container sizes fit ptrdiff_t */
+  nvis = 0;
+  k_jp_index(IN_index, IN_size);
+  s64 i = (s64)IN_index; s128 n = (s128)IN_size; s128 j = i >= 0 ? (s128)i : n + (s128)i;
+  if (j >= 0 && j < n) P(nvis == 1 && vis[0] == (u64)j, "exactly the addressed element is selected"); else P(nvis == 0, "an index outside the array selects nothing");
+  WIT(nvis == 1 && i < -1);
+}
+
+HARNESS(h_jm_index) {
+  HAVOC(IN_index); HAVOC(IN_size); ASSUME(IN_size <= 0x7fffffffffffffffULL);
+  nvis = 0;
+  k_jm_index(IN_index, IN_size);
+  s64 i = (s64)IN_index; s128 n = (s128)IN_size; s128 j = i >= 0 ? (s128)i : n + (s128)i;
+  if (j >= 0 && j < n) P(nvis == 1 && vis[0] == (u64)j, "exactly the addressed element is returned"); else P(nvis == 0, "an index outside the array yields null");
+  WIT(nvis == 1 && i < -1);
+}
+
+/* ---------------- C12 K12.3: member names are quoted in normalized paths so that un-escaping gives the name back ---------------- */
+#ifndef NE2
+#define NE2 3
+#endif
+INPUT_ARR(u8, IN_name, 6)
+HARNESS(h_jp_escape) {
+  HAVOC_ARR(IN_name, 6);
+  u8* s = malloc(NE2 ? NE2 : 1); ASSUME(s != 0); for (int i = 0; i < NE2; i++) s[i] = IN_name[i];
+  u8* out = malloc(2 * NE2 + 2); ASSUME(out != 0); u64 ret = 0;
+  u64 w = k_jp_escape(s, NE2, out, 2 * NE2 + 2, &ret);
+  P(w == ret && w <= 2 * NE2, "returned count equals the characters written, at most two per input character"); ASSUME(w <= 2 * NE2);
+  /* reference un-escaper for single-quoted JSONPath name literals: \\ \' \b \f \n \r \t, everything else literal; a raw ' or a dangling \ is ill formed */
+  u64 p = 0; int ok = 1;
+  for (int i = 0; i < NE2; i++) { if (!ok) break; if (p >= w) { ok = 0; break; } u8 c = out[p];
+    if (c == '\'') { ok = 0; break; }
+    if (c == '\\') { if (p + 1 >= w) { ok = 0; break; } u8 e = out[p + 1]; c = e == '\\' ? '\\' : e == '\'' ? '\'' : e == 'b' ? 8 : e == 'f' ? 12 : e == 'n' ? 10 : e == 'r' ? 13 : e == 't' ? 9 : 0; if (c == 0) { ok = 0; break; } p += 2; } else p += 1;
+    if (c != s[i]) ok = 0; }
+  P(ok && p == w, "the quoted name has no raw quote or dangling backslash and un-escapes to the member name");
+  WIT(w == 2 * NE2);
+}
